@@ -197,6 +197,15 @@ def ensure_repo_on_path():
         sys.path.insert(0, src)
     # make sure the hooks guard is on (no hooks are currently needed; kept for the interface)
     os.environ.setdefault("CRUNCH_IO_CRUNCH_CUBE_VERIF", "1")
+    # the venv's editable-install .pth pre-registers the `cr` namespace package with
+    # __path__ = ['/repo/src/cr']; re-point it so VERIF_REPO=<worktree> really imports that tree
+    for m in [m for m in sys.modules if m.startswith("cr.")]:
+        del sys.modules[m]
+    if "cr" in sys.modules:
+        try:
+            sys.modules["cr"].__path__ = [os.path.join(src, "cr")]
+        except Exception:
+            del sys.modules["cr"]
     import cr.cube  # noqa
     real = os.path.realpath(cr.cube.__file__)
     if not real.startswith(os.path.realpath(src)):
